@@ -40,6 +40,9 @@ type Violation struct {
 	Stack   []string          `json:"stack"`
 	Draws   []Draw            `json:"draws"`
 	Unknown bool              `json:"unknown,omitempty"` // solver could not decide
+	JSON     []JSONDoc        `json:"json_docs,omitempty"`
+	Contains []ContainsVal    `json:"contains,omitempty"`
+	Func     string           `json:"func"` // innermost module function on the stack
 }
 
 // Draw is one zzvrt draw along the path, in program order, with its model value.
@@ -176,6 +179,8 @@ type State struct {
 	endKind    string
 	accessLog  []Access
 	logAccess  bool
+	jsonCalls  []jsonCall
+	containsObs []containsObs
 }
 
 // Access is a recorded heap access (for lockset analysis).
@@ -733,6 +738,9 @@ func (st *State) recordViolation(kind, id, msg string, pos token.Pos, unknown bo
 	if len(st.gs) > 0 && st.cur < len(st.gs) {
 		for _, fr := range st.gs[st.cur].Stack {
 			v.Stack = append(v.Stack, fr.Fn.String())
+			if !strings.Contains(fr.Fn.String(), "H_") && !strings.Contains(fr.Fn.String(), "zz_verif") {
+				v.Func = fr.Fn.String()
+			}
 		}
 	}
 	if !unknown {
@@ -752,11 +760,29 @@ func (st *State) recordViolation(kind, id, msg string, pos token.Pos, unknown bo
 			for _, d := range st.draws {
 				dd := d
 				if dd.Term != "" {
-					mv := st.sol.GetValues([]string{dd.Term})
-					dd.Value = mv[dd.Term]
+					var srt Sort
+					for _, dc := range st.decls {
+						if dc.Name == dd.Term {
+							srt = dc.Sort
+						}
+					}
+					val := st.evalTerm(Var(dd.Term, srt))
+					switch x := val.(type) {
+					case bool:
+						dd.Value = fmt.Sprint(x)
+					case uint64:
+						if dd.Kind == "int" {
+							dd.Value = fmt.Sprint(signed(srt.W, x))
+						} else {
+							dd.Value = fmt.Sprint(x)
+						}
+					case string:
+						dd.Value = fmt.Sprintf("hex:%x", x)
+					}
 				}
 				v.Draws = append(v.Draws, dd)
 			}
+			v.JSON, v.Contains = st.concretizeJSON()
 		}
 	}
 	e.Res.Violations = append(e.Res.Violations, v)
